@@ -126,7 +126,7 @@ func (fr *Frame) callWith(st *State, c *ssa.CallCommon, args []Val, site ssa.Ins
 				}
 				name := fmt.Sprintf("%s/call[%s#%d]/assert[%s]", vc.fnKey, shortCallee(key), ord, ca.Clause.Label)
 				vc.oblige(st, name, "assert", env.evalBool(ca.Clause.Expr), ca.Clause.Text)
-				ca.Clause.Line = -ca.Clause.Line // mark as used
+				ca.Used = true
 			}
 		}
 	}
@@ -187,6 +187,9 @@ func shortCallee(key string) string {
 }
 
 func calleeMatches(key, pat string) bool {
+	if strings.ContainsAny(pat, "()*") {
+		return strings.Contains(key, pat) || strings.Contains(strings.ReplaceAll(key, "annotations.", ""), pat)
+	}
 	return key == pat || strings.HasSuffix(key, "."+pat) || strings.HasSuffix(key, ")."+pat) || shortCallee(key) == pat
 }
 
@@ -999,6 +1002,8 @@ func (fr *Frame) loopBack(st *State, li *loopInfo) {
 	vc := fr.vc
 	ls := fr.loopSpec(li)
 	li.backs++
+	savedPos := vc.curPos
+	defer func() { vc.curPos = savedPos }()
 	suffix := ""
 	if li.backs > 1 {
 		suffix = fmt.Sprintf("#%d", li.backs)
